@@ -7,6 +7,8 @@ PARSE = M + "/parse"
 LIBS = ["strings", "unicode/utf8", "strconv"]
 CORE = [M + "/ptrify", M + "/common", "strings", "unicode/utf8", "strconv", "go/token"]
 SW = [M, M + "/ptrify", M + "/common", M + "/transform", M + "/parse", "strings", "unicode/utf8", "strconv", "go/token"]
+ENVP = [M, M + "/ptrify", M + "/common", M + "/transform", M + "/parse", M + "/tagformat", M + "/tagformat/caseconversion", M + "/helper",
+        "github.com/fatih/structtag", "strings", "unicode/utf8", "strconv", "go/token", "text/scanner", "bytes", "io"]
 TEXT = ["strings", "unicode/utf8", "strconv", "text/scanner", "bytes", "io", "go/token"]
 
 COMMON_ASSUME = [
@@ -162,6 +164,17 @@ CHECKS = {
         "bounds": {"quick": "3 events; 4 option combinations; initial validity symbolic", "thorough": "4 events"},
         "outside": "longer event sequences",
         "assumptions": CONC_ASSUME,
+    },
+    "C11": {
+        "runs": [
+            {"entry": M + "/sources/env.HarnessC11NoPrefix", "pkgs": ENVP, "must_reach": ["c11-end", "c11-error"]},
+            {"entry": M + "/sources/env.HarnessC11Prefix", "pkgs": ENVP, "must_reach": ["c11-end", "c11-error"], "tiers": ["thorough"]},
+        ],
+    },
+    "C14": {
+        "runs": [
+            {"entry": M + "/sources/env.HarnessC14Env", "pkgs": ENVP + ["sort"], "must_reach": ["c14-end", "c14-both-error"]},
+        ],
     },
     "C15": {
         "claim": {
